@@ -516,6 +516,11 @@ func fmtFloat(f float64) string {
 // renderJSON renders an interface value (possibly lazy) as JSON text under
 // model m. Unmaterialised nodes are null.
 func (x *Exec) renderJSON(v Iface, m map[string]string) string {
+	x.rdepth++
+	defer func() { x.rdepth-- }()
+	if x.rdepth > 40 {
+		return "null" // cyclic value (only a faulty implementation can build one)
+	}
 	if v.L != nil {
 		if !v.L.done {
 			if v.L.kvar != "" {
@@ -597,6 +602,11 @@ func (x *Exec) renderTape(m map[string]string) []string {
 
 // renderVal: canonical text of an arbitrary value under a model (for notes).
 func (x *Exec) renderVal(v Val, m map[string]string) string {
+	x.rdepth++
+	defer func() { x.rdepth-- }()
+	if x.rdepth > 40 {
+		return "<cycle>"
+	}
 	switch vv := v.(type) {
 	case nil:
 		return "nil"
